@@ -40,7 +40,7 @@ func (r *Rng) Pick(xs []string) string  { return xs[r.Intn(len(xs))] }
 const CanonicalDoc = `{"nums":[3,1,2,2,-5,10.5],"strs":["b","a","c","a","é"],` +
 	`"objs":[{"k":3,"s":"c","t":[1]},{"k":1,"s":"a","t":[2,3]},{"k":2,"s":"b","t":[]},{"k":1,"s":"a2","t":null}],` +
 	`"mixed":[{"k":1},{"k":"x"},{"k":2},{"k":0}],"mixeds":[{"k":"b"},{"k":"a"},{"k":1},{"k":"c"}],` +
-	`"nested":[[1,2],[3],[],[4,[5]]],"grid":[[{"k":2,"s":"b","t":[1]},{"k":1,"s":"a","t":[]}],[{"k":3,"s":"c","t":[2,3]}],[]],` +
+	`"sparse":[1,null,2,null,null,3,"a",null],"sparseobjs":[{"k":1},null,{"k":2,"t":null},null],"nested":[[1,2],[3],[],[4,[5]]],"grid":[[{"k":2,"s":"b","t":[1]},{"k":1,"s":"a","t":[]}],[{"k":3,"s":"c","t":[2,3]}],[]],` +
 	`"tree":{"name":"r","kids":[{"name":"a","kids":[{"name":"b","kids":[]}]},{"name":"c","kids":[]}]},"o1":{"a":1,"b":{"c":[1,2]}},"o2":{"b":2,"z":[9]},` +
 	`"s":"héllo","n":-3.5,"t":true,"z":null,"e":[],"eo":{}}`
 
@@ -202,6 +202,29 @@ func Doc(r *Rng) string {
 		}
 	}
 	d["nested"] = nested
+	n = arrLen(r) % 10
+	sparse := make([]interface{}, n)
+	for i := range sparse {
+		switch r.Intn(4) {
+		case 0, 1:
+			sparse[i] = nil
+		case 2:
+			sparse[i] = num(r)
+		default:
+			sparse[i] = str(r)
+		}
+	}
+	d["sparse"] = sparse
+	n = arrLen(r) % 7
+	so := make([]interface{}, n)
+	for i := range so {
+		if r.Chance(1, 2) {
+			so[i] = nil
+		} else {
+			so[i] = map[string]interface{}{"k": num(r), "t": nil}
+		}
+	}
+	d["sparseobjs"] = so
 	mkObj := func() interface{} {
 		t := make([]interface{}, r.Intn(3))
 		for j := range t {
@@ -268,7 +291,7 @@ func (g *G) ArrNum() string {
 	defer g.deeper()()
 	r := g.R
 	if g.leaf() {
-		return r.Pick([]string{"nums", "nums", "nums", "objs[*].k", "nested[0]", "o1.b.c", "objs[0].t", r.Pick(litArrNum), "e"})
+		return r.Pick([]string{"nums", "nums", "nums", "objs[*].k", "nested[0]", "o1.b.c", "objs[0].t", r.Pick(litArrNum), "e", "sparse", "sparse[*]"})
 	}
 	switch r.Intn(12) {
 	case 0:
@@ -689,7 +712,7 @@ func CaseFlip(r *Rng, e string) string {
 // order, e.g. grid[0][*].k, grid | [-1][*].t[], tree.kids[0].kids[*].name,
 // nested[3][*][0], map(&[0][*].k, [grid]).
 func Chain(r *Rng) string {
-	e := r.Pick([]string{"grid", "grid", "grid", "nested", "nested", "tree.kids", "tree", "objs", "[grid, grid]", "objs[*].t", "o1", "@"})
+	e := r.Pick([]string{"grid", "grid", "grid", "nested", "nested", "tree.kids", "tree", "objs", "[grid, grid]", "objs[*].t", "o1", "@", "sparse", "sparse", "sparseobjs"})
 	n := 1 + r.Intn(5)
 	for i := 0; i < n; i++ {
 		switch r.Intn(16) {
@@ -787,6 +810,8 @@ func Systematic() []string {
 		"objs[?type(k) == 'number' && abs(k) > `1`].s", "mixed[?type(k) == 'number' && k > `0`]", "strs[?type(@) == 'string' && starts_with(@, 'a')]", "mixeds[?type(k) == 'string' && starts_with(k, 'a')].k",
 		"nums[?type(@) == 'number' && ceil(@) > `2`]", "nested[?type(@) == 'array' && length(@) > `1`]", "mixed[?type(k) != 'number' || abs(k) > `1`]", "objs[?t && length(t) > `1`].k", "objs[?type(t) == 'array' && length(t) > `0`].s",
 		"mixeds[?type(k) == 'string' && length(k) > `1`]", "nested[?type(@) == 'number' && abs(@) > `3`]", "strs[?type(@) == 'string' && ends_with(@, 'a') && length(@) > `0`]",
+		"sparse[*]", "sparse[]", "sparse[?@]", "sparse[*].k", "sparse[1:]", "sparse[::-1]", "sparseobjs[*]", "sparseobjs[*].k", "sparseobjs[].k", "sparseobjs[?@].k", "sparseobjs[?k > `1`]", "sort_by(sparseobjs[?@], &k)",
+		"not_null(sparse[1], sparse[0])", "sparse | [*]", "[sparse, sparse][*][*]", "sparse[*] | [0]", "map(&@, sparse)", "sparseobjs[*].t", "reverse(sparse)", "to_array(sparse)[*]", "sparse[*][0]", "length(sparse[*])",
 		"contains(s, `1`)", "sort_by(mixeds, &k)", "max_by(mixeds, &k)", "min_by(mixeds, &k)", "max_by(objs, &abs(s))", "min_by(objs, &abs(s))", "sort_by(objs, &abs(s))",
 		"min_by(objs, &s)", "max_by(objs, &s)", "min_by(mixed, &abs(k))", "max_by(mixed, &abs(k))", "objs[?abs(s)]", "objs[?k].abs(s)", "objs[*].abs(s)", "abs(s).*", "*.abs(@)", "o1.*.abs(@)",
 		"sort_by(mixeds, &abs(k))", "sort_by(strs, &abs(@))", "max(e)", "min(e)", "map(&abs(@), strs)", "nums[?abs(s)]", "[abs(s)]", "{a: abs(s)}", "abs(s) || nums", "abs(s) && nums", "!abs(s)", "abs(s) | nums", "abs(s) == nums", "nums[abs(s)]",
